@@ -74,6 +74,11 @@ extern "C" {
     fn bdd_low(b: *mut CBdd) -> *mut CBdd;
     fn bdd_high(b: *mut CBdd) -> *mut CBdd;
     fn bdd_to_json(b: *mut CBdd) -> *const c_char;
+    fn print_bdd(b: *mut CBdd) -> *const c_char;
+    fn bdd_num_recursive_calls(builder: *mut c_void) -> usize;
+    fn bdd_scratch(b: *mut CBdd, default: usize) -> usize;
+    fn bdd_set_scratch(b: *mut CBdd, val: usize);
+    fn bdd_clear_scratch(b: *mut CBdd);
     fn bdd_wmc(b: *mut CBdd, w: *mut WmcParams<RealSemiring>) -> f64;
     fn bdd_wmc_complex(b: *mut CBdd, w: *mut WmcParams<Complex>) -> Complex;
     fn new_wmc_params_f64() -> *mut WmcParams<RealSemiring>;
@@ -127,6 +132,8 @@ pub enum COp {
     WmcComplex(u16, Vec<u8>),
     WmcPoly(u16, Vec<u8>),
     Json(u16),
+    Print(u16),
+    Scratch(u16, u16),
 }
 
 #[derive(Clone, Debug, Serialize, Deserialize)]
@@ -489,6 +496,49 @@ unsafe fn run_case_inner(case: &Case, st: &mut Stats) -> CaseResult {
                 destroy_wmc_params_poly(w);
                 None
             }
+            COp::Print(a) => {
+                let a = at(a);
+                let text = CStr::from_ptr(print_bdd(cp[a])).to_string_lossy().to_string();
+                ensure!(
+                    text == np[a].print_bdd(),
+                    "C18/print-bdd",
+                    "op #{}: print_bdd gives `{}`, the native print_bdd of the same diagram `{}`",
+                    i,
+                    text,
+                    np[a].print_bdd()
+                );
+                let (c, nat) = (bdd_num_recursive_calls(mgr), nb.num_recursive_calls());
+                ensure!(
+                    c == nat,
+                    "C18/num-recursive-calls",
+                    "op #{}: bdd_num_recursive_calls = {} but the native builder with the same history reports {}",
+                    i,
+                    c,
+                    nat
+                );
+                None
+            }
+            COp::Scratch(a, val) => {
+                let a = at(a);
+                if !np[a].is_const() {
+                    let v = *val as usize + 1;
+                    ensure!(bdd_scratch(cp[a], 424242) == 424242, "C18/scratch", "op #{}: scratch not empty before use", i);
+                    bdd_set_scratch(cp[a], v);
+                    let got = bdd_scratch(cp[a], 424242);
+                    bdd_clear_scratch(cp[a]);
+                    let after = bdd_scratch(cp[a], 424242);
+                    ensure!(
+                        got == v && after == 424242,
+                        "C18/scratch",
+                        "op #{}: bdd_set_scratch({}) then bdd_scratch = {}, after bdd_clear_scratch = {} (default 424242)",
+                        i,
+                        v,
+                        got,
+                        after
+                    );
+                }
+                None
+            }
             COp::Json(a) => {
                 let a = at(a);
                 let s = bdd_to_json(cp[a]);
@@ -657,9 +707,9 @@ fn selv() -> impl Strategy<Value = Vec<u8>> {
 impl SubCheckT for Abi {
     type Case = Case;
     const NAME: &'static str = "c_api";
-    const RULE: &'static str = "histories of <=40 C-API calls on one manager (mk_bdd_manager_default_order or robdd_builder_all_table over var_order_new / var_order_linear): bdd_var, bdd_true/false, bdd_negate/and/or/ite/compose, bdd_new_var, bdd_new_label, interleaved with bdd_eq, bdd_count_nodes, robdd_model_count, bdd_wmc / _complex / _poly (weights set and read back through the wmc_param_* and polynomial_* calls) and bdd_to_json, in lock step with a native RobddBuilder: the truth table read through bdd_is_true/false/topvar/low/high equals the native and the oracle one, bdd_eq = native eq = function equality, topvar/low/high and whole results are isomorphic to the native ones, counts equal the native values exactly (and brute force for normalised real weights), model count = number of models over the manager's current variables; then the one-shot wrappers cnf_new/literal_new, cnf_from_dimacs, cnf_min_fill_order, dtree_from_cnf, vtree_from_dtree, robdd_builder_compile_cnf, sdd_builder_new/compile_cnf/sdd_wmc, ddnnf_builder_new/compile_cnf_topdown against their native counterparts. Non-trivial: >=1 binary/ternary op and >=1 count query";
+    const RULE: &'static str = "histories of <=40 C-API calls on one manager (mk_bdd_manager_default_order or robdd_builder_all_table over var_order_new / var_order_linear): bdd_var, bdd_true/false, bdd_negate/and/or/ite/compose, bdd_new_var, bdd_new_label, interleaved with bdd_eq, bdd_count_nodes, robdd_model_count, bdd_wmc / _complex / _poly (weights set and read back through the wmc_param_* and polynomial_* calls, one polynomial weight of up to 32 coefficients), bdd_to_json, print_bdd, bdd_num_recursive_calls, bdd_scratch/set_scratch/clear_scratch, in lock step with a native RobddBuilder: the truth table read through bdd_is_true/false/topvar/low/high equals the native and the oracle one, bdd_eq = native eq = function equality, topvar/low/high and whole results are isomorphic to the native ones, counts equal the native values exactly (and brute force for normalised real weights), model count = number of models over the manager's current variables; then the one-shot wrappers cnf_new/literal_new, cnf_from_dimacs, cnf_min_fill_order, dtree_from_cnf, vtree_from_dtree, robdd_builder_compile_cnf, sdd_builder_new/compile_cnf/sdd_wmc, ddnnf_builder_new/compile_cnf_topdown against their native counterparts. Non-trivial: >=1 binary/ternary op and >=1 count query";
     fn cases(tier: Tier) -> u32 {
-        tier.pick(2000, 60_000)
+        tier.pick(5000, 60_000)
     }
     fn strategy(_tier: Tier) -> BoxedStrategy<Case> {
         let i = || idx_strategy();
@@ -680,6 +730,8 @@ impl SubCheckT for Abi {
             1 => (i(), selv()).prop_map(|(a, s)| COp::WmcComplex(a, s)),
             1 => (i(), selv()).prop_map(|(a, s)| COp::WmcPoly(a, s)),
             1 => i().prop_map(COp::Json),
+            1 => i().prop_map(COp::Print),
+            1 => (i(), any::<u16>()).prop_map(|(a, v)| COp::Scratch(a, v)),
         ];
         (
             1u8..=6,
